@@ -120,4 +120,38 @@ void runResidue(const Opts& o, long idx, CaseLog& log) {
     log.line("RES %ld ok", idx);
 }
 
+
+// C12, API direction: every int16 value / float pattern handed over through set() and frames -> save -> bytes (checked in Python) -> load (checked here)
+void runC12Api(const Opts& o, long idx, CaseLog& log) {
+    typedef ezc3d::ParametersNS::GroupNS::Parameter Param;
+    ezc3d::c3d c;
+    { Param r("RATE"); r.set(std::vector<float>(1, 100.f)); c.parameter("POINT", r); }
+    std::vector<int> iv; std::vector<float> fv; std::vector<uint32_t> fb;
+    if (idx < 4) { for (int v = 0; v < 16384; ++v) iv.push_back(-32768 + (int)idx * 16384 + v); Param p("INTS"); p.set(iv, std::vector<size_t>(2, 128)); c.parameter("C12", p); }
+    else {
+        for (uint32_t sgn = 0; sgn < 2; ++sgn) for (uint32_t e = 0; e < 256; ++e) { uint32_t ms[4] = {0u, 1u, 1u << 22, (1u << 23) - 1}; for (int k = 0; k < 4; ++k) fb.push_back((sgn << 31) | (e << 23) | ms[k]); }
+        for (size_t i = 0; i < fb.size(); ++i) fv.push_back(bitsf(fb[i]));
+        std::vector<size_t> d; d.push_back(64); d.push_back(32);
+        Param p("FLOATS"); p.set(fv, d); c.parameter("C12", p);
+        for (int i = 0; i < 128; ++i) c.point("Q" + std::to_string(i));
+        for (int f = 0; f < 4; ++f) { ezc3d::DataNS::Frame fr; ezc3d::DataNS::Points3dNS::Points pts;
+            for (int i = 0; i < 128; ++i) { ezc3d::DataNS::Points3dNS::Point pt; pt.name("Q" + std::to_string(i)); size_t b = (size_t)f * 512 + (size_t)i * 4; pt.x(fv[b]); pt.y(fv[b + 1]); pt.z(fv[b + 2]); pt.residual(fv[b + 3]); pts.point(pt); }
+            fr.add(pts); c.frame(fr); }
+    }
+    char fp[700]; snprintf(fp, sizeof fp, "%s/api_%ld.c3d", o.out.c_str(), idx);
+    Outcome so; log.pre("write"); VF_TRY(so, c.write(fp)); log.ev("save", "", so);
+    if (so.threw) { log.viol("C12", "api/save_threw/" + so.cls, so.what); return; }
+    std::unique_ptr<ezc3d::c3d> l; Outcome lo; log.pre("load"); VF_TRY(lo, l.reset(new ezc3d::c3d(fp))); log.ev("load", "", lo);
+    if (lo.threw) { log.viol("C12", "api/reload_threw/" + lo.cls, lo.what); return; }
+    long bad = 0, checked = 0;
+    if (idx < 4) { const std::vector<int>& got = l->parameters().group("C12").parameter("INTS").valuesAsInt(); checked = (long)got.size();
+        if (got.size() != iv.size()) bad = -1; else for (size_t i = 0; i < iv.size(); ++i) if (got[i] != iv[i]) { if (!bad) log.viol("C12", "api/int_value", "set " + std::to_string(iv[i]) + " loaded " + std::to_string(got[i])); ++bad; } }
+    else { const std::vector<float>& got = l->parameters().group("C12").parameter("FLOATS").valuesAsFloat(); checked = (long)got.size();
+        if (got.size() != fv.size()) bad = -1; else for (size_t i = 0; i < fv.size(); ++i) if (fbits(got[i]) != fb[i]) { if (!bad) { char t[64]; snprintf(t, sizeof t, "%08x -> %08x", fb[i], fbits(got[i])); log.viol("C12", "api/float_param_pattern", t); } ++bad; }
+        for (int f = 0; f < 4; ++f) for (int i = 0; i < 128; ++i) { const ezc3d::DataNS::Points3dNS::Point& pt = l->data().frame((size_t)f).points().point((size_t)i); size_t b = (size_t)f * 512 + (size_t)i * 4; uint32_t g[4] = {fbits(pt.x()), fbits(pt.y()), fbits(pt.z()), fbits(pt.residual())};
+            for (int k = 0; k < 4; ++k) { ++checked; if (g[k] != fb[b + k]) { if (!bad) { char t[64]; snprintf(t, sizeof t, "%08x -> %08x (component %d)", fb[b + k], g[k], k); log.viol("C12", "api/point_float_pattern", t); } ++bad; } } } }
+    if (bad == -1) log.viol("C12", "api/value_count", "number of values changed");
+    log.line("RES %ld ok checked=%ld bad=%ld", idx, checked, bad);
+}
+
 }  // namespace vf
